@@ -42,7 +42,7 @@ COMPONENTS = {"real": ["EoN.discrete_SIR", "EoN.basic_discrete_SIR", "EoN.basic_
 
 def plan(tier):
     if tier == "quick":
-        return [("dsir", 4000), ("step_law", 400), ("perc_traj", 250), ("percolate", 300)]
+        return [("dsir", 20000), ("step_law", 800), ("perc_traj", 250), ("percolate", 500)]
     return [("dsir", 300000), ("step_law", 25000), ("perc_traj", 12000), ("percolate", 12000)]
 
 
